@@ -57,6 +57,8 @@ func init() {
 				Old: "\tfor _, uo := range unuseds {\n\t\tif used[uo.key] {\n\t\t\tcontinue\n\t\t}\n", New: "\tfor _, uo := range unuseds {\n"},
 			{Name: "unused-overwrites-used", File: "lintcmd/lint.go", Rule: "R17.2", KeyPart: "used-never-overwritten",
 				Old: "\t\t\t\t\tif _, ok := used[key]; !ok {\n\t\t\t\t\t\tused[key] = false\n\t\t\t\t\t}\n", New: "\t\t\t\t\tused[key] = false\n"},
+			{Name: "exported-used-objects-not-recorded", File: "lintcmd/lint.go", Rule: "R17.2", KeyPart: "every-used-object-recorded",
+				Old: "\t\t\tfor _, obj := range resd.Unused.Used {", New: "\t\t\tfor _, obj := range resd.Unused.Used {\n\t\t\t\tif token.IsExported(obj.Name) {\n\t\t\t\t\tcontinue\n\t\t\t\t}"},
 			{Name: "used-only-if-u1000-enabled", File: "lintcmd/lint.go", Rule: "R17.2", KeyPart: "used-recorded-for-every-variant",
 				Old: "\t\t\tfor _, obj := range resd.Unused.Used {", New: "\t\t\tfor _, obj := range resd.Unused.Used {\n\t\t\t\tif !allowedAnalyzers[makeCaseFoldedString(\"U1000\")] {\n\t\t\t\t\tbreak\n\t\t\t\t}"},
 			{Name: "key-without-package-path", File: "lintcmd/lint.go", Rule: "R17.3", KeyPart: "identifies-object-within-its-package",
@@ -352,6 +354,22 @@ func runC17(c *Ctx) {
 				})
 				gated, _ := MustPassEdges(lint, mu, u1000On)
 				c.Check(FuncKey(lint)+"::used-recorded-for-every-variant", mu.Pos(), !gated || len(u1000On) == 0, "every variant's Used objects are recorded, whether or not U1000 is enabled for that variant")
+				// … and every one of them: from the element of Unused.Used that the key is built from, every way to
+				// the next element passes the recording (no filter on the object: an exported method of an unexported
+				// type is 'unused' in the variant where its type is unreachable and 'used' in the test variant)
+				Instrs(lint, false, func(in ssa.Instruction) {
+					ia, ok := in.(*ssa.IndexAddr)
+					if !ok || !AddrFrom(ia.X, IsFieldOf("unused.Result", "Used")) {
+						return
+					}
+					t, path := PathAvoiding(lint, ia, func(x ssa.Instruction) bool {
+						if _, isRet := x.(*ssa.Return); isRet {
+							return true
+						}
+						return x == ssa.Instruction(ia)
+					}, func(x ssa.Instruction) bool { return x == ssa.Instruction(mu) }, nil)
+					c.Check(FuncKey(lint)+"::every-used-object-recorded", ia.Pos(), t == nil, "every element of a variant's Used list is entered into the used map (no filtering by name or kind): an object that is used in one variant must veto its report from every other variant; path that skips the recording: %s", PathString(lint, path))
+				})
 			} else {
 				c.Check(FuncKey(lint)+"::used-map-stores-constants", mu.Pos(), false, "the used map is only ever set to the constants true/false")
 			}
